@@ -364,7 +364,7 @@ class CurveFitting(object):
         sx2 = self._Q
         d = n * sx2 - sx * sx
 
-        if abs(d) < TOL * max(1.0, abs(n * sx2)):
+        if abs(d) <= TOL * abs(n * sx2):
             raise ZeroDivisionError("Input data leads to a division by zero")
 
         a = (n * sxy - sx * sy) / d
@@ -401,7 +401,7 @@ class CurveFitting(object):
         q2 = q * q
         d = n * q * s + 2.0 * p * q * r - q2 * q - p * p * s - n * r * r
 
-        if abs(d) < TOL * max(1.0, abs(n * q * s)):
+        if abs(d) <= TOL * abs(n * q * s):
             raise ZeroDivisionError("Input data leads to a division by zero")
 
         a = (n * q * v + p * r * t + p * q * u
@@ -474,17 +474,17 @@ class CurveFitting(object):
         if abs(t) < TOL and abs(m) >= TOL and abs(r) >= TOL:
             # Only two functions were given: Solve the 2x2 normal equations
             d = m * r - p * p
-            if abs(d) < TOL * max(1.0, abs(m * r)):
+            if abs(d) <= TOL * abs(m * r):
                 raise ZeroDivisionError(
                     "Input data leads to a division by zero")
             return ((u * r - v * p) / d, (v * m - u * p) / d, 0.0)
 
-        if abs(m * r * t) < TOL:
+        if abs(m) < TOL or abs(r) < TOL or abs(t) < TOL:
             raise ZeroDivisionError("Invalid input functions: They are null")
 
         d = m * r * t + 2.0 * p * q * s - m * s * s - r * q * q - t * p * p
 
-        if abs(d) < TOL * max(1.0, abs(m * r * t)):
+        if abs(d) <= TOL * abs(m * r * t):
             raise ZeroDivisionError("Input data leads to a division by zero")
 
         a = (u * (r * t - s * s) + v * (q * s - p * t)
